@@ -107,6 +107,13 @@ func VerifC18ServerClientValidation() {
 	c.Transport.HeartbeatInterval, c.Transport.HeartbeatTimeout = int64(hbI), int64(hbT)
 	on := true
 	c.Transport.TLS.Enable = &on
+	switch zzverif.Choice("tcpMux", 3) { // unset, on, off: the heartbeat rule does not depend on it
+	case 1:
+		c.Transport.TCPMux = &on
+	case 2:
+		off := false
+		c.Transport.TCPMux = &off
+	}
 	_, err := ValidateClientCommonConfig(c)
 	hbOK := zzverif.Or(zzverif.Or(hbI <= 0, hbT <= 0), hbT >= hbI)
 	want := zzverif.And(hbOK, methodOK(m) && scopeOK[si] && levelOK(c.Log.Level) && protoOK)
